@@ -353,6 +353,10 @@ func (fw *fixedWindow) GetSystemFlow() *resourceTypes.ResourceFlowData {
 }
 
 func (fw *fixedWindow) GetQuotaGroupsCounters() map[string]int64 {
+	// called by the metrics collection while transactions add quota groups
+	// under the same lock (getQuota)
+	fw.getQuotaLock.Lock()
+	defer fw.getQuotaLock.Unlock()
 	counters := make(map[string]int64)
 	for key, quotaObj := range fw.quotaGroups {
 		counters[key] = quotaObj.GetCounter()
